@@ -2,6 +2,7 @@
 a stub `serial` module, stub sockets, a virtual clock, logging silenced.  Nothing in /repo is edited."""
 import logging
 import signal
+import threading
 import sys
 import types
 
@@ -16,9 +17,19 @@ _root.addHandler(logging.NullHandler())
 _root.propagate = False
 
 
-def log_level(debug):
-    """`debug` = True: every DEBUG-guarded rendering in the library is evaluated; False: disabled"""
+def log_level(debug, split=None):
+    """`debug` = True: every DEBUG-guarded rendering in the library is evaluated; False: disabled.
+    `split` (a number): DEBUG on some of the package's module loggers only - the noisy ones turned down, as a user does"""
+    mods = sorted(n for n in logging.root.manager.loggerDict if n.startswith('ubxlib.'))
+    for n in mods:
+        logging.getLogger(n).setLevel(logging.NOTSET)
     _root.setLevel(logging.DEBUG if debug else logging.CRITICAL + 10)
+    if split is not None and mods:
+        # one logger (or all but one) at WARNING, the rest inherit DEBUG from the package logger
+        k = split % (2 * len(mods))
+        for i, n in enumerate(mods):
+            if (i == k) if k < len(mods) else (i != k - len(mods)):
+                logging.getLogger(n).setLevel(logging.WARNING)
 
 
 log_level(False)
@@ -165,6 +176,36 @@ def install_clock():
         patch_time(tty)
     except Exception:      # a broken back end must not take the other components down
         pass
+
+
+# ---- which thread calls -------------------------------------------------------------------------------
+HOP = [False]
+
+
+def set_case(line):
+    """per line: whether the operations of this history are made from a new thread each (a thread pool, run_in_executor …) -
+    strictly one after the other, never at the same time.  An object must not care which thread calls it next."""
+    import zlib
+    HOP[0] = zlib.crc32(line.encode()) % 6 == 0 and line.count(';') < 300       # (a thread per operation: not for the byte-by-byte giants)
+
+
+def in_thread(fn, *a):
+    if not HOP[0] or threading.current_thread() is not threading.main_thread():
+        return fn(*a)
+    box = {}
+
+    def run():
+        try:
+            box['r'] = fn(*a)
+        except BaseException as e:        # handed to the caller, whatever it is
+            box['e'] = e
+    t = threading.Thread(target=run, daemon=True)
+    t.start()
+    while t.is_alive():
+        t.join(0.05)                      # the main thread stays open to the watchdog's alarm
+    if 'e' in box:
+        raise box['e']
+    return box.get('r')
 
 
 # ---- per-case watchdog ----------------------------------------------------------------------------
